@@ -14,7 +14,35 @@ from stationeers_pytrapic import generate_code as _gc  # noqa: E402
 from stationeers_pytrapic.compile_pass import CompileOptions  # noqa: E402
 from stationeers_pytrapic.types import IC10Register  # noqa: E402
 
-compile_code = _compiler.compile_code
+_raw_compile_code = _compiler.compile_code
+TIMEOUT_TEXT = "Timeout during evaluating constexpr"
+INCONCLUSIVE = {"n": 0}
+
+
+def compile_code(src, options):
+    """The real compile_code.  The compiler's only timed behaviour is the 1 s limit of a constexpr evaluation (a child process that
+    imports the package); under a fully loaded machine a terminating constexpr function can exceed it.  Such a result says nothing
+    about the property under test: it is retried (up to 4 times, backing off) and otherwise counted as inconclusive (DESIGN 1.6)."""
+    res = _raw_compile_code(src, options)
+    tries = 0
+    while tries < 4 and isinstance(res, dict) and "error" in res and TIMEOUT_TEXT in str(res["error"].get("description", "")) and not _expects_timeout(src):
+        tries += 1
+        import time as _t
+
+        _t.sleep(0.5 * tries)
+        res = _raw_compile_code(src, options)
+    if tries == 4 and "error" in res and TIMEOUT_TEXT in str(res["error"].get("description", "")):
+        INCONCLUSIVE["n"] += 1
+    return res
+
+
+def _expects_timeout(src):
+    text = src if isinstance(src, str) else "\n".join(map(str, src.values())) if isinstance(src, dict) else ""
+    return "VERIF-EXPECT-TIMEOUT" in text
+
+
+def is_timeout(res):
+    return isinstance(res, dict) and "error" in res and TIMEOUT_TEXT in str(res["error"].get("description", ""))
 
 OPTION_NAMES = (
     "original_code_as_comment",
